@@ -142,8 +142,9 @@ def table_task(task):
                     "tree": f.describe(), "corner": label}
             # the designated tree gets the best score and the highest count, so that all three commands write it
             results = tracegen.make_trace(rng, data, samples, 1, 6, [f], scores="synthetic", clusters=clusters)
-            for e in results[0]["trace"]:
-                e["log_p_one"] = -5.0
+            for ei, e in enumerate(results[0]["trace"]):
+                # later records of the designated tree score strictly higher (as after a concentration update)
+                e["log_p_one"] = -5.0 - 0.01 * (5 - ei) if c % 2 else -5.0
             extra = tracegen.make_trace(rng, data, samples, 1, 3, others, scores="synthetic", clusters=clusters)
             for e in extra[0]["trace"]:
                 e["log_p_one"] = -50.0 - float(rng.random())
@@ -152,7 +153,9 @@ def table_task(task):
             tracegen.write_trace(results, path)
             part.count("evaluations")
             part.see("%s|%s|%d|%s" % (label, clustered, D, gen.key_str(f.key())))
-            ref_tree = Tree.from_dict(results[0]["trace"][0]["tree"])
+            best_i = max(range(6), key=lambda i: (results[0]["trace"][i]["log_p_one"], -i))
+            ref_tree_map = Tree.from_dict(results[0]["trace"][best_i]["tree"])
+            ref_tree_first = Tree.from_dict(results[0]["trace"][0]["tree"])
             for cmd in ("map", "topology-report", "consensus"):
                 case["command"] = cmd
                 try:
@@ -180,7 +183,9 @@ def table_task(task):
                     part.count("tables_%s" % cmd)
                     ccf_ref = None
                     if cmd != "consensus" and f.K > 0:
-                        # per-clone values (C10 owns their optimality): both commands write the first best entry
+                        # per-clone values (C10 owns their optimality): map writes the best entry, the archive the
+                        # first recorded copy of the topology
+                        ref_tree = ref_tree_map if cmd == "map" else ref_tree_first
                         nodes = tracegen.newick_nodes(tracegen.parse_newick(newick))
                         if sorted(map(str, ref_tree.nodes)) == sorted(x for x in nodes if x != "root"):
                             cc, pp = get_map_node_ccfs_and_clonal_prev_dicts(ref_tree)
@@ -229,6 +234,63 @@ def table_task(task):
     return None, part
 
 
+def real_task(task):
+    """TABLE+TREE of the three commands on traces written by the real writer from real chain runs on generated input
+    files (clustered with a PyClone-VI style cluster file, or not)."""
+    import gzip
+    import pickle
+    import pandas as pd
+    from vlib.harness import Partial, describe_exception
+    from checks.c20 import build_trace
+    from phyclone.process_trace import write_consensus_results, write_map_results, write_topology_report
+
+    part = Partial()
+    tmp = tempfile.mkdtemp(prefix="verif_c12r_")
+    try:
+        clustered = bool(task["shard"] % 2)
+        path = build_trace(task["seed"] * 100 + task["shard"], 1 + task["shard"] % 2, clustered, tmp, iters=10)
+        with gzip.GzipFile(path, "rb") as fh:
+            results = pickle.load(fh)
+        data, samples = results[0]["data"], list(results[0]["samples"])
+        clusters = results[0].get("clusters")
+        case = {"seed": task["seed"], "shard": task["shard"], "real_run": True, "clustered": clustered,
+                "n": len(data), "D": len(samples)}
+        for cmd in ("map", "topology-report", "consensus"):
+            case["command"] = cmd
+            try:
+                tab, nwk = os.path.join(tmp, "o.tsv"), os.path.join(tmp, "o.nwk")
+                if cmd == "map":
+                    write_map_results(path, tab, nwk)
+                    table, newick = tracegen.read_table(tab), open(nwk).read().strip()
+                elif cmd == "consensus":
+                    write_consensus_results(path, tab, nwk)
+                    table, newick = tracegen.read_table(tab), open(nwk).read().strip()
+                else:
+                    arc = os.path.join(tmp, "a.tar.gz")
+                    write_topology_report(path, os.path.join(tmp, "rep.tsv"), topologies_archive=arc, top_trees=1)
+                    with tarfile.open(arc, "r:gz") as tf:
+                        files = {m.name.split("/")[1]: tf.extractfile(m).read().decode() for m in tf.getmembers()}
+                    table = pd.read_csv(io.StringIO(files["t_0_results_table.tsv"]), sep="\t", float_precision="round_trip")
+                    newick = files["t_0.nwk"].strip()
+                part.count("evaluations")
+                part.count("tables_checked")
+                part.count("tables_from_real_runs")
+                part.see("real|%s|%s|%d" % (cmd, clustered, task["shard"]))
+                if check_table(part, case, table, newick, data, samples, None, clusters, None):
+                    part.count("tables_consistent")
+            except Exception as e:
+                et, where, msg = describe_exception(e)
+                if where == "outside-repo":
+                    import traceback
+                    part.inconc("harness error: " + traceback.format_exc()[-900:])
+                else:
+                    part.violation("%s in %s: %s command did not complete on a real trace" % (et, where, cmd),
+                                   dict(case, msg=msg))
+    finally:
+        shutil.rmtree(tmp, ignore_errors=True)
+    return None, part
+
+
 def run(ctx):
     quick = ctx.tier == "quick"
     ctx.rule = ("synthetic traces whose best and most frequent entry is a designated tree - corner trees (single clone, all "
@@ -240,5 +302,6 @@ def run(ctx):
     shards = 16
     tasks = [{"seed": ctx.seed, "shard": i, "count": 12 if quick else 160} for i in range(shards)]
     ctx.map("checks.c12", "table_task", tasks, timeout=3000)
+    ctx.map("checks.c12", "real_task", [{"seed": ctx.seed, "shard": i} for i in range(8 if quick else 32)], timeout=3000)
     if ctx.counters.get("tables_checked", 0) < 200:
         ctx.inconc("too few tables checked")
